@@ -168,3 +168,44 @@ package transform
 //@   safety C16
 //@   requires valid(val)
 //@   ensures r <==> (isNilableKind(kind(vtype(val))) && kind(vtype(val)) != UnsafePointer && visnil(val))
+
+//@ lemma leafSum_mono(t RType, a int, n int, tu RType)
+//@   props C10
+//@   induct n
+//@   requires 0 <= a && a <= n
+//@   ensures leafSum(t, a, tu) <= leafSum(t, n, tu)
+//@ lemma leafSum_step_le(t RType, i int, n int, tu RType)
+//@   props C10
+//@   hint leafSum_mono(t, i + 1, n, tu)
+//@   trigger leafSum(t, i, tu), leafSum(t, n, tu)
+//@   requires 0 <= i && i < n
+//@   ensures leafSum(t, i, tu) + leafCount(fType(t, i), tu) <= leafSum(t, n, tu)
+
+// flattenable shape: a struct that is flattened is reached through exactly one pointer (what
+// ptrify.Pointerify produces), and so are the struct-typed fields below it.
+//@ rec flatOK(t RType, tu RType) bool = isLeafType(t, tu) || (t == ptrTo(stripPtr(t)) && flatOKFields(stripPtr(t), numField(stripPtr(t)), tu))
+//@ rec flatOKFields(t RType, n int, tu RType) bool = n <= 0 || (flatOKFields(t, n - 1, tu) && flatOK(fType(t, n - 1), tu))
+//@ lemma flatOK_field(t RType, i int, n int, tu RType)
+//@   props C10
+//@   induct n
+//@   trigger flatOKFields(t, n, tu), fType(t, i)
+//@   requires 0 <= i && i < n && flatOKFields(t, n, tu)
+//@   ensures flatOK(fType(t, i), tu)
+
+//@ func transform.populateStruct(originalVal, vs, inputIndex) (next, anySet, err)
+//@   props C10 C11
+//@   safety C16
+//@   requires valid(originalVal) && vtype(originalVal) != nil
+//@   requires wf_package_initialised: tuType() != nil && kind(tuType()) == Interface
+//@   requires C10_pointerified_shape: flatOK(vtype(originalVal), tuType())
+//@   requires C10_enough_values: 0 <= inputIndex && inputIndex + leafCount(vtype(originalVal), tuType()) <= len(vs)
+//@   requires C10_values_are_valid: forall k int :: {vs[k].Value} 0 <= k && k < len(vs) ==> valid(vs[k].Value) && vtype(vs[k].Value) != nil
+//@   decreases srank(vtype(originalVal))
+//@   modifies rh
+//@   loop 0:
+//@     invariant 0 <= i && i <= numField(vt) && vt == stripPtr(vtype(originalVal)) && kind(vt) == Struct && !isLeafType(vtype(originalVal), tuType())
+//@     invariant C10_consumed_so_far: inputIndex == old(inputIndex) + leafSum(vt, i, tuType())
+//@     invariant valid(val) && vtype(val) == vt && canSet(val) && valid(setVal) && vtype(setVal) == ptrTo(vt) && !canAddr(setVal) && !visnil(setVal)
+//@     iter_ensures C11_set_children_are_not_forgotten: old(anyChildSet) ==> anyChildSet
+//@   ensures C10_consumes_exactly_the_leaves_below: err == nil ==> next == old(inputIndex) + leafCount(vtype(originalVal), tuType())
+//@   ensures C10_position_never_moves_backwards: next >= old(inputIndex)
